@@ -51,12 +51,18 @@ NamingShapes == <<
 
 \* the type table decides by the WHOLE cast type name: a named integer whose name merely ends in the configured
 \* duration cast type (or in "Duration" / "Time") is an integer
+CastBuiltin == With("t.cast.builtin", <<Msg("Root", <<Cast(Fld("Num", 1, "int64"), "int"), Rep(Cast(Fld("Items", 2, "uint32"), "uint16")),
+                                                       Cast(Fld("Fa", 3, "int32"), "int8"), Cast(Fld("Fb", 4, "uint64"), "uint"),
+                                                       InOneof(Cast(Fld("BranchA", 5, "int64"), "int"), "Grp"), InOneof(Fld("BranchB", 6, "string"), "Grp")>>, <<"Grp">>)>>, BaseCfg)
 CastNameShapes == <<
   With("t.cast.suffix", <<Msg("Root", <<Cast(Fld("Num", 1, "int64"), "BlockDuration"), Cast(Fld("Dur", 2, "int64"), "Duration"),
                                         Cast(Fld("Fa", 3, "int64"), "XtimeDuration"), Cast(Fld("Fb", 4, "int32"), "MyTime"),
                                         Rep(Cast(Fld("Fc", 5, "int64"), "BlockDuration"))>>, <<>>)>>,
        [BaseCfg EXCEPT !.durationcustom = "Duration"]),
-  With("t.cast.nocustom", <<Msg("Root", <<Cast(Fld("Num", 1, "int64"), "BlockDuration"), Cast(Fld("Dur", 2, "int64"), "Duration")>>, <<>>)>>, BaseCfg) >>
+  With("t.cast.nocustom", <<Msg("Root", <<Cast(Fld("Num", 1, "int64"), "BlockDuration"), Cast(Fld("Dur", 2, "int64"), "Duration")>>, <<>>)>>, BaseCfg),
+  \* casts to PREDECLARED Go types that gogo itself never emits for a proto scalar (int, uint16, int8, uint): built-in all the
+  \* same, never qualified with the struct package
+  CastBuiltin >>
 
 GenMapShapes == TypeTableShapes \o NamingShapes \o CastNameShapes \o AllSessionShapes
 
@@ -205,6 +211,9 @@ Healthy == Msg("Root", <<Fld("Str", 1, "string"), MsgF("Sub", 2, "Leaf")>>, <<>>
 BadField(kind) ==
   CASE kind = "time" -> StdTime("Bad", 9)
     [] kind = "dur" -> StdDur("Bad", 9)
+    \* the well-known types as they stand, without the stdtime / stdduration options (gogo: *types.Timestamp / *types.Duration)
+    [] kind = "ptime" -> Fld("Bad", 9, "timestamp")
+    [] kind = "pdur" -> Fld("Bad", 9, "duration")
     [] kind = "mapkey" -> [MapOf(Fld("Bad", 9, "string")) EXCEPT !.mapkey = "int32"]
     [] OTHER -> Fld("Bad", 9, "string")
 \* where it sits below the selected type Poison: [msgs, path of the bad field]
@@ -220,7 +229,7 @@ PoisonAt(pos, kind) ==
        [] OTHER -> [msgs |-> <<holder, Msg("Outer", <<Fld("Flag", 1, "bool"), MsgF("Mid", 2, "Mid")>>, <<>>),
                                Msg("Poison", <<Fld("Str", 1, "string"), MsgF("Sub", 2, "Outer")>>, <<>>)>>, key |-> "Poison.Sub.Mid.Bad"]
 
-WholeCfg(kind, excl) == [BaseCfg EXCEPT !.types = <<"Poison", "Root">>, !.timetype = kind # "time", !.durationtype = kind # "dur", !.exclude = excl]
+WholeCfg(kind, excl) == [BaseCfg EXCEPT !.types = <<"Poison", "Root">>, !.timetype = kind \notin {"time", "ptime"}, !.durationtype = kind \notin {"dur", "pdur"}, !.exclude = excl]
 
 WholeShapesFor(pos, kind) ==
   LET pa == PoisonAt(pos, kind)
@@ -246,14 +255,14 @@ SharedPoison(kind) ==
         mk("2excl", cfg(<<"Mid.Bad">>), "Root"), mk("2excl", cfg(<<"Mid.Bad">>), "Poison"), mk("2excl", cfg(<<"Mid.Bad">>), "Other") >>
 
 Positions == <<"top", "nested", "list", "map", "embed", "oneof", "deep">>
-BadKinds == <<"time", "dur", "mapkey">>
+BadKinds == <<"time", "dur", "mapkey", "ptime", "pdur">>
 GenWholeShapes(long) ==
   IF long THEN FlattenSeq([i \in 1..(Len(Positions) * Len(BadKinds)) |->
                  WholeShapesFor(Positions[((i - 1) \div Len(BadKinds)) + 1], BadKinds[((i - 1) % Len(BadKinds)) + 1])])
                \o SharedPoison("time") \o SharedPoison("dur") \o SharedPoison("mapkey")
   ELSE WholeShapesFor("top", "time") \o WholeShapesFor("nested", "mapkey") \o WholeShapesFor("list", "dur")
        \o WholeShapesFor("map", "time") \o WholeShapesFor("embed", "mapkey") \o WholeShapesFor("oneof", "dur") \o WholeShapesFor("deep", "time")
-       \o SharedPoison("time")
+       \o SharedPoison("time") \o WholeShapesFor("nested", "ptime") \o WholeShapesFor("top", "pdur")
 
 ---------------------------------------------------------------------------
 \* C16: command line and YAML are equivalent channels; C14: determinism
@@ -422,6 +431,7 @@ SepSel == <<ScalarShapes[8], ScalarShapes[6], ScalarShapes[10], ScalarShapes[13]
             Shape("s.allbytes", Desc(<<Msg("Root", <<Fld("Raw", 1, "bytes"), Rep(Fld("Items", 2, "bytes")), MapOf(Fld("Tags", 3, "bytes")),
                                                      Rep(Fld("Fa", 4, "bool")), MapOf(Fld("Fb", 5, "uint32"))>>, <<>>)>>), BaseCfg),
             \* the word "package" inside a description: only the package clause of the file may be rewritten
+            CastBuiltin,
             Shape("s.pkgcomment", Desc(<<Msg("Root", <<Commented(Fld("Str", 1, "string"), ComPkg), Commented(Fld("Num", 2, "int32"), Com1)>>, <<>>)>>), BaseCfg)>>
 
 SepTriple(sp) ==
@@ -509,6 +519,11 @@ GenExclShapes ==
 FourOf(t) == Msg("Root", <<Fld("Fa", 1, t), Rep(Fld("Fb", 2, t)), MapOf(Fld("Fc", 3, t)), InOneof(Fld("Fd", 4, t), "Grp")>>, <<"Grp">>)
 BoundaryShapes ==
   [i \in DOMAIN ScalarTys |-> With("c19." \o ScalarTys[i], <<FourOf(ScalarTys[i])>>, BaseCfg)]
+  \* the scalar positions below the holder of an embedded message (nullable: allocated on demand; by value), all set at once
+  \o [i \in DOMAIN ScalarTys |-> With("c19.embed." \o ScalarTys[i],
+          <<Msg("Inner", <<Fld("Fa", 1, ScalarTys[i]), Fld("Fb", 2, ScalarTys[i]), Fld("Fc", 3, ScalarTys[i])>>, <<>>),
+            Msg("Outer", <<Fld("Fd", 1, ScalarTys[i]), Fld("Fe", 2, ScalarTys[i])>>, <<>>),
+            Msg("Root", <<Embed(MsgF("Inner", 1, "Inner")), NonNull(Embed(MsgF("Outer", 2, "Outer"))), Fld("Ff", 3, ScalarTys[i])>>, <<>>)>>, BaseCfg)]
   \o << With("c19.enum", <<FourOf("enum")>>, BaseCfg),
         With("c19.cast.string", <<Msg("Root", <<Cast(Fld("Fa", 1, "string"), "CastStr"), Rep(Cast(Fld("Fb", 2, "string"), "CastStr"))>>, <<>>)>>, BaseCfg),
         With("c19.cast.uint64", <<Msg("Root", <<Cast(Fld("Fa", 1, "uint64"), "CastU"), Rep(Cast(Fld("Fb", 2, "uint64"), "CastU"))>>, <<>>)>>, BaseCfg),
